@@ -1,3 +1,159 @@
 package main
 
+// Thorough tier = the quick analysis, plus
+//   (1) the same analysis under a second build configuration (GOARCH=386: other int width,
+//       other build-constrained files) — a violation there is a violation of the tree;
+//   (2) self-validation of the checker against the committed seeded changes of the property
+//       (/verif/seeded/<P>-*/patch.diff): each is applied to a scratch copy of the tree under
+//       the system temp dir (removed afterwards, /repo itself is never touched), re-analysed
+//       in a sub-process, and the rules that fire are recorded in the evidence file.
+//       Self-validation never fails the property check: a seeded change that is no longer
+//       reported says the *checker* regressed, not the tree; it is printed as
+//       "SELF-VALIDATION: …" and recorded under coverage.self_validation.
+
+import (
+	"fmt"
+	"io"
+	"io/fs"
+	"os"
+	"os/exec"
+	"path/filepath"
+	"regexp"
+	"sort"
+	"strings"
+	"sync"
+)
+
+type seedResult struct {
+	Seed     string   `json:"seed"`
+	Reported bool     `json:"reported"`
+	Rules    []string `json:"rules_fired"`
+	Expected string   `json:"recorded_as"`
+	Note     string   `json:"note,omitempty"`
+}
+
+func copyTree(src, dst string) error {
+	return filepath.WalkDir(src, func(path string, d fs.DirEntry, err error) error {
+		if err != nil {
+			return err
+		}
+		rel, _ := filepath.Rel(src, path)
+		if rel == ".git" || strings.HasPrefix(rel, ".git"+string(os.PathSeparator)) {
+			if d.IsDir() {
+				return filepath.SkipDir
+			}
+			return nil
+		}
+		target := filepath.Join(dst, rel)
+		if d.IsDir() {
+			return os.MkdirAll(target, 0o755)
+		}
+		if !d.Type().IsRegular() {
+			return nil
+		}
+		in, err := os.Open(path)
+		if err != nil {
+			return err
+		}
+		defer in.Close()
+		out, err := os.Create(target)
+		if err != nil {
+			return err
+		}
+		defer out.Close()
+		_, err = io.Copy(out, in)
+		return err
+	})
+}
+
+var ruleRe = regexp.MustCompile(`\[(?:violated|undecided)\] ([A-Za-z0-9.\-]+)\|`)
+
+func selfValidate(prop, repo, verif string) []seedResult {
+	dirs, _ := filepath.Glob(filepath.Join(verif, "seeded", prop+"-*"))
+	sort.Strings(dirs)
+	res := make([]seedResult, len(dirs))
+	var wg sync.WaitGroup
+	sem := make(chan struct{}, 6)
+	self, _ := os.Executable()
+	for i, dir := range dirs {
+		wg.Add(1)
+		go func(i int, dir string) {
+			defer wg.Done()
+			sem <- struct{}{}
+			defer func() { <-sem }()
+			sr := seedResult{Seed: filepath.Base(dir)}
+			if b, err := os.ReadFile(filepath.Join(dir, "meta.json")); err == nil {
+				if strings.Contains(string(b), "NOT CAUGHT") {
+					sr.Expected = "not caught (documented limit)"
+				} else {
+					sr.Expected = "caught"
+				}
+			}
+			tmp, err := os.MkdirTemp("", "hclverif-seed-")
+			if err != nil {
+				sr.Note = err.Error()
+				res[i] = sr
+				return
+			}
+			defer os.RemoveAll(tmp)
+			if err := copyTree(repo, tmp); err != nil {
+				sr.Note = "copy: " + err.Error()
+				res[i] = sr
+				return
+			}
+			if out, err := exec.Command("patch", "-p1", "-s", "-d", tmp, "-i", filepath.Join(dir, "patch.diff")).CombinedOutput(); err != nil {
+				sr.Note = "seeded patch no longer applies to the current tree: " + strings.TrimSpace(string(out))
+				res[i] = sr
+				return
+			}
+			cmd := exec.Command(self, "-property", prop, "-repo", tmp, "-verif", verif, "-no-evidence")
+			out, _ := cmd.CombinedOutput()
+			seen := map[string]bool{}
+			for _, m := range ruleRe.FindAllStringSubmatch(string(out), -1) {
+				if !seen[m[1]] {
+					seen[m[1]] = true
+					sr.Rules = append(sr.Rules, m[1])
+				}
+			}
+			sort.Strings(sr.Rules)
+			sr.Reported = cmd.ProcessState != nil && cmd.ProcessState.ExitCode() == 1 && strings.Contains(string(out), "VIOLATION property="+prop)
+			if strings.Contains(string(out), "ANALYSIS FAILURE") {
+				sr.Note = "analysis failure on the seeded tree (does not compile / type-check)"
+			}
+			res[i] = sr
+		}(i, dir)
+	}
+	wg.Wait()
+	return res
+}
+
+// thoroughExtras runs the second configuration and the self-validation. It returns the
+// exit code of the second configuration (1 = violations there) and the extra coverage keys.
+func thoroughExtras(prop, repo, verif string, noEvidence bool) (int, map[string]interface{}) {
+	extra := map[string]interface{}{}
+	fmt.Println("== thorough: second build configuration GOARCH=386")
+	code := runProperty(prop, "thorough", repo, verif, "386", noEvidence, false, "", nil)
+	extra["configurations"] = []string{"GOARCH=386", "GOARCH=(host)"}
+	if code != 0 {
+		return code, extra
+	}
+	fmt.Println("== thorough: self-validation against the committed seeded changes")
+	sv := selfValidate(prop, repo, verif)
+	rep := 0
+	for _, s := range sv {
+		st := "reported"
+		if !s.Reported {
+			st = "NOT reported"
+		} else {
+			rep++
+		}
+		fmt.Printf("SELF-VALIDATION: %s %s [%s] (recorded as: %s) %s\n", s.Seed, st, strings.Join(s.Rules, ", "), s.Expected, s.Note)
+	}
+	extra["self_validation"] = sv
+	extra["self_validation_reported"] = rep
+	extra["self_validation_total"] = len(sv)
+	fmt.Println("== thorough: analysis of the current tree (host configuration)")
+	return 0, extra
+}
+
 func thoroughImpl(prop, repo, verif string) int { return 0 }
